@@ -3,12 +3,17 @@
 demo passes without the patch, fails with it; the patched tree builds and the unedited workspace suite passes.
 usage: verify_seed.py <ID> [--base /tmp/seed_<ID>]   -> <base>/verify.json"""
 import json, os, subprocess, sys, time
-sid = sys.argv[1]
-base = "/tmp/seed_%s" % sid
+import re
+arg = sys.argv[1]
+# either a seed id (round 1 layout /tmp/seed_<ID>/out) or a directory holding patch.diff / demo.diff / meta.json
+out = arg if os.path.isdir(arg) else "/tmp/seed_%s/out" % arg
+sid = arg
+base = out
 # one shared verification worktree + target dir for all seeds (disk: a per-seed target grows to 20+ GB)
-wt, out, tgt = "/tmp/verify/wt", base + "/out", "/tmp/verify/target"
+wt, tgt = "/tmp/verify/wt", "/tmp/verify/target"
 meta = json.load(open(out + "/meta.json"))
-meta["demo_cmd"] = meta["demo_cmd"].replace(base + "/target", tgt).replace(base + "/wt", wt)
+meta["demo_cmd"] = re.sub(r"/tmp/seed2?_\w+/target", tgt, meta["demo_cmd"])
+meta["demo_cmd"] = re.sub(r"/tmp/seed2?_\w+/wt", wt, meta["demo_cmd"])
 env = dict(os.environ, CARGO_TARGET_DIR=tgt, CARGO_NET_OFFLINE="true", CARGO_INCREMENTAL="0",
            CARGO_PROFILE_DEV_DEBUG="0", CARGO_PROFILE_TEST_DEBUG="0")
 def sh(cmd, **kw):
@@ -37,5 +42,5 @@ clean()
 res["wall_s"] = round(time.time() - t0)
 res["confirmed"] = bool(res["demo_applies_clean"] and res["demo_without_patch_rc"] == 0 and res["patch_applies_on_demo"] and res["demo_with_patch_rc"] != 0
                         and res["patch_applies_clean"] and (res["suite_with_patch_rc"] == 0 or res.get("suite_with_patch_rc_rerun") == 0))
-json.dump(res, open(base + "/verify.json", "w"), indent=1)
+json.dump(res, open((base if os.path.isdir(arg) else "/tmp/seed_%s" % arg) + "/verify.json", "w"), indent=1)
 print(json.dumps(res, indent=1))
